@@ -64,7 +64,7 @@ Theorem C13_result_is_covering_node :
     let len := byte_len s in
     exists rs re node m p,
       trim_range s (N.min a len) (N.min b len) = Ok (rs, re) /\
-      cover t 0 LMarkup None rs (N.min re len) = Some (node, r1, m, p) /\
+      cover t 0 (LMarkup, false) None rs (N.min re len) = Some (node, r1, m, p) /\
       r2 = r1 + byte_size node /\ erroneous node = false /\ coverable node = true /\
       r1 <= rs /\ N.min re len <= r2 /\ subtree_at t 0 node r1.
 Proof. exact format_range_result. Qed.
@@ -75,7 +75,7 @@ Check C13_result_is_covering_node :
     let len := byte_len s in
     exists rs re node m p,
       trim_range s (N.min a len) (N.min b len) = Ok (rs, re) /\
-      cover t 0 LMarkup None rs (N.min re len) = Some (node, r1, m, p) /\
+      cover t 0 (LMarkup, false) None rs (N.min re len) = Some (node, r1, m, p) /\
       r2 = r1 + byte_size node /\ erroneous node = false /\ coverable node = true /\
       r1 <= rs /\ N.min re len <= r2 /\ subtree_at t 0 node r1.
 Print Assumptions C13_result_is_covering_node.
@@ -84,8 +84,8 @@ Print Assumptions C13_result_is_covering_node.
 Theorem C13_refuses_erroneous :
   forall swidth cfg t a b rs re,
     trim_range (into_text t) (N.min a (byte_len (into_text t))) (N.min b (byte_len (into_text t))) = Ok (rs, re) ->
-    (cover t 0 LMarkup None rs (N.min re (byte_len (into_text t))) = None \/
-     exists node o m p, cover t 0 LMarkup None rs (N.min re (byte_len (into_text t))) = Some (node, o, m, p) /\ erroneous node = true) ->
+    (cover t 0 (LMarkup, false) None rs (N.min re (byte_len (into_text t))) = None \/
+     exists node o m p, cover t 0 (LMarkup, false) None rs (N.min re (byte_len (into_text t))) = Some (node, o, m, p) /\ erroneous node = true) ->
     format_range swidth cfg t a b = RErr.
 Proof. exact format_range_refuses. Qed.
 Print Assumptions C13_refuses_erroneous.
